@@ -3,6 +3,9 @@
  * that equivalence.  Instantiated with a key comparison that has non-trivial equivalence classes (v >> 2). */
 #define CONTRACT_Stor_eq __CPROVER_assigns() __CPROVER_ensures(__CPROVER_return_value == ((a0->v >> 2) == (a1->v >> 2)))
 #define CONTRACT_Stor_lt __CPROVER_assigns() __CPROVER_ensures(__CPROVER_return_value == ((a0->v >> 2) < (a1->v >> 2)))
+/* a Storage whose operator< returns int (any non-zero value = true): it still supports both == and < */
+#define CONTRACT_StorI_eq __CPROVER_assigns() __CPROVER_ensures(__CPROVER_return_value == ((a0->v >> 2) == (a1->v >> 2)))
+#define CONTRACT_StorI_lt __CPROVER_assigns() __CPROVER_ensures((__CPROVER_return_value != 0) == ((a0->v >> 2) < (a1->v >> 2)))
 #define LEMMA __CPROVER_requires(1) __CPROVER_assigns() __CPROVER_ensures(1)
 #define OK(c, msg) __CPROVER_assert(c, msg)
 
@@ -36,4 +39,13 @@ void lemma_anyid_stored(void) LEMMA
   IdS a, b, c; a.digest = cex_da; b.digest = cex_db; c.digest = cex_dc; a.value.v = cex_va; b.value.v = cex_vb; c.value.v = cex_vc;
   LAWS(IdS, eq__Stor, lt__Stor, HashS_call, HashS)
   OK(!(a.digest == b.digest && (a.value.v >> 2) != (b.value.v >> 2)) || (!ab && (lab || lba)), "with value storage: colliding digests with different values stay distinct, ordered ids");
+}
+
+void lemma_anyid_stored_nonbool(void) LEMMA
+{
+  unsigned long cex_da = nondet_ulong(), cex_db = nondet_ulong(), cex_dc = nondet_ulong();
+  int cex_va = nondet_int(), cex_vb = nondet_int(), cex_vc = nondet_int();
+  IdI a, b, c; a.digest = cex_da; b.digest = cex_db; c.digest = cex_dc; a.value.v = cex_va; b.value.v = cex_vb; c.value.v = cex_vc;
+  LAWS(IdI, eq__StorI, lt__StorI, HashI_call, HashI)
+  OK(!(a.digest == b.digest && (a.value.v >> 2) != (b.value.v >> 2)) || (!ab && (lab || lba)), "with a value storage whose < returns a non-bool: colliding digests with different values stay distinct, ordered ids");
 }
